@@ -3,10 +3,13 @@ CONSTANTS
   Vals = {1, 2, 3}
   MaxProd = 1000
   MaxRestarts = 1000
-  MaxUpdLen = 2
+  MaxUpdLen = 1
   MaxBatch = 100
   Protocol = TRUE
   SimLen = 40
+  WRelease = 6
+  WRestart = 2
+  WStatus = 2
 INIT GInit
 NEXT GNext
 INVARIANT EmitAtLen
